@@ -339,7 +339,13 @@ pub fn random_trace(seed: u64, names: &[String]) -> Trace {
                 s.push(Step::Call(Op::SetPref(name, v)));
             }
             11 => s.push(Step::Call(Op::GetPref(random_pref_name(&mut rng, names)))),
-            12 | 13 => s.push(Step::Call(Op::SetMathml(if rng.chance(0.85) { ExprRef::Pool(rng.below(n_valid)) } else { ExprRef::Bad(rng.below(pools::INVALID_EXPRS.len())) }))),
+            12 | 13 => s.push(Step::Call(Op::SetMathml(if rng.chance(0.15) {
+                ExprRef::Corpus(rng.below(pools::corpus().len()))
+            } else if rng.chance(0.85) {
+                ExprRef::Pool(rng.below(n_valid))
+            } else {
+                ExprRef::Bad(rng.below(pools::INVALID_EXPRS.len()))
+            }))),
             14 => s.push(Step::Call(rng.pick(&[Op::Speech, Op::Braille(IdRef::Empty), Op::Overview, Op::NodeFromPos(PosRef::Permille(500)), Op::BraillePos]).clone())),
             15 | 16 => s.push(Step::Call(Op::Cmd(crate::props::c11::random_nav_command(&mut rng)))),
             17 => {
